@@ -232,6 +232,22 @@ func (a *Authority) UseToken(token string, prov provisioner.Interface) error {
 	return nil
 }
 
+// useRenewToken stores a renew token to protect against reuse.
+func (a *Authority) useRenewToken(token, id string) error {
+	if id == "" {
+		sum := sha256.Sum256(reuseKeyMaterial(token))
+		id = strings.ToLower(hex.EncodeToString(sum[:]))
+	}
+	ok, err := a.db.UseToken(id, token)
+	if err != nil {
+		return errs.Wrap(http.StatusInternalServerError, err, "failed when attempting to store token")
+	}
+	if !ok {
+		return errs.Unauthorized("token already used")
+	}
+	return nil
+}
+
 // Authorize grabs the method from the context and authorizes the request by
 // validating the one-time-token.
 func (a *Authority) Authorize(ctx context.Context, token string) ([]provisioner.SignOption, error) {
@@ -453,7 +469,11 @@ func (a *Authority) AuthorizeRenewToken(_ context.Context, ott string) (*x509.Ce
 	if err != nil {
 		return nil, errs.Unauthorized("error validating renew token: cannot get provisioner from certificate")
 	}
-	if err := a.UseToken(ott, p); err != nil {
+	// A renew token is a token of the CA's own format: its id is its jti (or its
+	// payload), whatever the type of the provisioner that issued the certificate.
+	// The provisioner's GetTokenID is about that provisioner's provisioning tokens;
+	// it fails (ACME, SCEP, K8sSA, AWS) or returns a constant (Azure, GCP) here.
+	if err := a.useRenewToken(ott, claims.ID); err != nil {
 		return nil, err
 	}
 
